@@ -23,7 +23,11 @@ static USER_ID: AtomicU32 = AtomicU32::new(1);
 const MAX_USERS: usize = u32::MAX as usize;
 
 impl System {
-    pub(crate) async fn load_users(&mut self, users: Vec<UserState>) -> Result<(), IggyError> {
+    pub(crate) async fn load_users(
+        &mut self,
+        users: Vec<UserState>,
+        replayed_user_id: u32,
+    ) -> Result<(), IggyError> {
         info!("Loading users...");
         if users.is_empty() {
             info!("No users found, creating the root user...");
@@ -76,8 +80,14 @@ impl System {
         }
 
         let users_count = self.users.len();
-        let current_user_id = self.users.keys().max().unwrap_or(&1);
-        USER_ID.store(current_user_id + 1, Ordering::SeqCst);
+        // Replay numbers users by creation order, including deleted ones: continue after the highest ID ever
+        // given, not after the highest surviving one, otherwise the next user is numbered differently at runtime
+        // and at the next replay.
+        let current_user_id = *self.users.keys().max().unwrap_or(&1);
+        USER_ID.store(
+            current_user_id.max(replayed_user_id) + 1,
+            Ordering::SeqCst,
+        );
         self.permissioner
             .init(&self.users.values().collect::<Vec<&User>>());
         self.metrics.increment_users(users_count as u32);
